@@ -57,7 +57,10 @@ THEOREMS = [
     'AbacusVerif.Mass.sum_forward_error',
     'AbacusVerif.Mass.wrap_inplace_spec',
     'AbacusVerif.Mass.wrapInplace_spec',
+    'AbacusVerif.Widths.tsc_indices_fit_int32',       # the model's unbounded indices are int32 values for g + 2 < 2^31
+    'AbacusVerif.Widths.tsc_indices_overflow_int16',  # ... and were not int16 values from g = 32767 on (repo fix 5d39ef7)
 ]
+LEAN_MODULES = ['AbacusVerif.Props.C06', 'AbacusVerif.Props.WidthsC06']
 DRIVER = 'drv_c06'
 RULE = ('one case = one particle set (positions, weights) x grid shape x box x offset x dtypes x supplied grid x '
         'wrap flag, run through every applicable entry point (_tsc_scatter compiled / py_func, tsc_parallel '
